@@ -7,6 +7,7 @@ import Dbg.Driver.C15
 import Dbg.Driver.C17
 import Dbg.Driver.C13
 import Dbg.Driver.C16
+import Dbg.Driver.C05
 /-! `dbgdriver`: one request per line on stdin (`<prop> <op> <args…>\t<implementation answer>`),
     one line per request on stdout (`<model answer>\t<verdict of holdsCxx on the implementation answer>`). -/
 open Drv
@@ -22,6 +23,7 @@ def dispatch (prop : String) (args : List String) (impl : String) : R Ans :=
   | "C17" => C17.handle args impl
   | "C13" => C13.handle args impl
   | "C16" => C16.handle args impl
+  | "C05" => C05.handle args impl
   | "C12" => (match args with | "exts" :: _ => C13.handleExts args impl | _ => C13.handle args impl)
   | _ => throw s!"unknown-property:{prop}"
 
